@@ -34,8 +34,17 @@ def strip(body):
     return out
 
 
-def chain(st, var):
-    """if ploidy == 1: A elif ploidy == 2: B else: raise ValueError -> [(1, A), (2, B)], raises"""
+def is_guard(st, var):
+    """if ploidy not in (1, 2): raise ValueError(...)"""
+    return isinstance(st, ast.If) and not st.orelse and src(st.test) in (f"{var} not in (1, 2)", f"{var} not in [1, 2]", f"{var} not in {{1, 2}}") \
+        and len(strip(st.body)) == 1 and isinstance(strip(st.body)[0], ast.Raise) and src(strip(st.body)[0].exc).startswith("ValueError(")
+
+
+def chain(st, var, guarded=False):
+    """if ploidy == 1: A elif ploidy == 2: B else: raise ValueError -> [(1, A), (2, B)], raises
+    (or, after the guard clause `if ploidy not in (1, 2): raise ValueError`:  if ploidy == 1: A else: B)"""
+    if guarded and src(st.test) == f"{var} == 1" and st.orelse and not (len(st.orelse) == 1 and isinstance(st.orelse[0], ast.If)):
+        return [(1, strip(st.body)), (2, strip(st.orelse))], True
     arms = []
     cur = st
     while True:
@@ -67,11 +76,12 @@ def translate():
     if not (isinstance(nopl, ast.If) and src(nopl.test) == "'PL' not in variant.FORMAT" and not nopl.orelse):
         raise Unsupported("the record-without-PL branch: " + t[5][:100])
     nb = strip(nopl.body)
-    d1 = next((x for x in nb if isinstance(x, ast.If)), None)
+    g1 = any(is_guard(x, "ploidy") for x in nb)
+    d1 = next((x for x in nb if isinstance(x, ast.If) and not is_guard(x, "ploidy")), None)
     if d1 is None or src(nb[-1]) != "return np.full((sample_count, local_genotype_count), constants.INT_MISSING)" \
             or "local_allele_count = la_val.shape[1]" not in [src(x) for x in nb]:
         raise Unsupported("the record-without-PL branch: body")
-    arms1, raises1 = chain(d1, "ploidy")
+    arms1, raises1 = chain(d1, "ploidy", g1)
     counts = {}
     for k, b in arms1:
         if len(b) != 1 or not src(b[0]).startswith("local_genotype_count = "):
@@ -83,10 +93,11 @@ def translate():
             counts[k] = "(n * (n + 1)) / 2"
         else:
             raise Unsupported("local genotype count: " + e)
+    g2 = any(is_guard(x, "ploidy") for x in body[6:])
     d2 = next((x for x in body[6:] if isinstance(x, ast.If) and src(x.test).startswith("ploidy == ")), None)
     if d2 is None:
         raise Unsupported("the a / b dispatch")
-    arms2, raises2 = chain(d2, "ploidy")
+    arms2, raises2 = chain(d2, "ploidy", g2)
     out = (f"(* GENERATED by translator/lpl2coq.py from {REPO}/bio2zarr/vcf2zarr/icf.py: the scalar skeleton of compute_lpl_field *)\n"
            "From Coq Require Import ZArith List Bool.\nFrom B2Z Require Import Base.Prims.\nImport ListNotations.\nOpen Scope Z_scope.\n\n"
            "(* la_val = [0] ++ laa_val per sample, negative entries (htslib's missing / end-of-vector sentinels) -> INT_FILL *)\n"
